@@ -158,13 +158,13 @@ class DeferredFileWriter(metaclass=Singleton):
         """
         while self.open_files:
             tmp_path, final_path, mode = self.open_files.popleft()
-            if 'w' in mode or '+' in mode:  # write
+            if 'a' in mode:  # append, including 'a+'
+                self._append_file(tmp_path, final_path, mode)
+            elif 'w' in mode or '+' in mode:  # write
                 self._write_file(tmp_path, final_path)
             elif 'r' in mode:  # read = error
                 raise AssertionError("Files opened with mode 'r' should not be "
                                      "treated special")
-            elif 'a' in mode:  # append
-                self._append_file(tmp_path, final_path, mode)
             else:
                 raise KeyError('Unknown file mode')
 
